@@ -233,7 +233,10 @@ theorem recv_potential (c c' : Chan) (m : Msg) (ms : List Msg) (os : List Out) (
     obtain ⟨_, _, _, ha⟩ := step_recv_data_ok h
     rcases acceptData_cases c bs dt with ⟨_, h1⟩ | ⟨_, _, h1⟩ | ⟨_, _, _, h1⟩ | ⟨_, _, _, h1⟩
     · rw [h1] at ha; cases ha; simp [linkPot, msgWeight]
-    · rw [h1] at ha; cases ha; simp [linkPot, msgWeight]
+    · rw [h1] at ha; cases ha
+      have : linkPot (sendPkt c (.adjust bs.length)) ≤ 1 := by
+        unfold sendPkt; split <;> simp [linkPot, msgWeight]
+      simp only [msgWeight]; omega
     · rw [h1] at ha; cases ha
       simp only [chanPot, sendPot, sStage, bufPot, linkPot, msgWeight, bufBytes_append, bufBytes,
         List.length_append, List.length_cons, List.length_nil]
@@ -348,7 +351,7 @@ theorem no_deadlock (s : Sys) (x : Side) (hinv : Inv s) (hu : 0 < undelivered s 
         unfold undelivered at hu
         rw [hsb, hl, hrb] at hu
         simp [dataOf, bufBytes] at hu
-    have heq := hd.acctEq hnl
+    have heq := hd.acctEq (not_sendLate_open (hinv.wf x.other).s hnl)
     have hhalf := (hinv.wf x.other).half
     unfold undelivered at hu
     rw [hl, hrb] at hu heq
